@@ -828,4 +828,116 @@ Section FrameProof.
       replace (lenN (map (fun e => fst (fst e)) log)) with (lenN log) by (unfold lenN; rewrite map_length; reflexivity).
       apply (scen_ok cmds (refM 0) 0 0 0 false); try reflexivity; try lia; assumption.
   Qed.
+
+  (* ---- the same facts in plain terms ---- *)
+
+  Notation PARTS := (apply_parts revision applied set_app set_ck mutate ck).
+
+  Lemma refM_zero_eq j k : (j <= k)%nat -> (k <= length log)%nat -> revision (Sref k) = 0 -> refM j = refM k.
+  Proof.
+    intros Hjk Hk E. unfold refM.
+    assert (Ej : Sref j = empty) by (apply (Sref_zero_empty j k); assumption).
+    assert (Ek : Sref k = empty) by (apply Sref_zero; assumption).
+    rewrite (store_of_zero k E). rewrite store_of_zero by (rewrite Ej; exact rev_empty).
+    rewrite Ej, Ek. reflexivity.
+  Qed.
+
+  Lemma skipn_add {A} (l : list A) : forall a b, skipn (a + b) l = skipn b (skipn a l).
+  Proof.
+    induction l as [|x l IH]; intros a b.
+    - rewrite !skipn_nil. reflexivity.
+    - destruct a as [|a]; [reflexivity|]. cbn [Nat.add skipn]. apply IH.
+  Qed.
+
+  Lemma parts_from : forall parts c, (c <= length log)%nat -> concat parts = skipn c log ->
+    PARTS (refM c) parts = (refM (length log), map Rref (seq c (length log - c))).
+  Proof.
+    induction parts as [|p parts IH]; intros c Hc Hcat.
+    - cbn [concat] in Hcat. assert (Hl : length (skipn c log) = 0%nat) by (rewrite <- Hcat; reflexivity).
+      rewrite skipn_length in Hl. assert (c = length log) by lia. subst c.
+      rewrite Nat.sub_diag. reflexivity.
+    - cbn [concat] in Hcat.
+      assert (Hlen : (c + length p <= length log)%nat).
+      { assert (Hl : length (skipn c log) = (length p + length (concat parts))%nat) by (rewrite <- Hcat; apply app_length).
+        rewrite skipn_length in Hl. lia. }
+      assert (Hp : p = map ent (seq c (length p))).
+      { rewrite <- firstn_skipn_seq by exact Hlen. rewrite <- Hcat. rewrite firstn_app, Nat.sub_diag, firstn_all.
+        cbn [firstn]. rewrite app_nil_r. reflexivity. }
+      assert (Hrest : concat parts = skipn (c + length p) log).
+      { rewrite skipn_add, <- Hcat. rewrite skipn_app, Nat.sub_diag, skipn_all. reflexivity. }
+      cbn [apply_parts]. rewrite Hp at 1.
+      rewrite (AB_outcome (refM c) 0 c c (length p) eq_refl ltac:(lia) Hc Hlen).
+      replace (Nat.max c (c + length p)%nat) with (c + length p)%nat by lia.
+      assert (Hres : map (my_exp c) (seq c (length p)) = map Rref (seq c (length p))).
+      { apply map_ext_in. intros k Hk. apply in_seq in Hk. unfold my_exp.
+        rewrite (proj2 (Nat.ltb_ge _ _)) by lia. reflexivity. }
+      rewrite Hres.
+      assert (Hseq : map Rref (seq c (length log - c)) =
+                     map Rref (seq c (length p)) ++ map Rref (seq (c + length p) (length log - (c + length p)))).
+      { rewrite <- map_app, <- seq_app. f_equal. f_equal. lia. }
+      destruct (N.eq_dec (revision (Sref (c + length p))) 0) as [E|E].
+      + rewrite (proj2 (N.eqb_eq _ _) E).
+        rewrite (refM_zero_eq c (c + length p) ltac:(lia) Hlen E).
+        rewrite (IH (c + length p)%nat Hlen Hrest). cbn [bo_results]. rewrite Hseq. reflexivity.
+      + rewrite (proj2 (N.eqb_neq _ _) E). cbn [N.eqb].
+        replace (Mk (Sref (c + length p)) (Some (Sref (c + length p))) false) with (refM (c + length p))
+          by (unfold refM; rewrite (store_of_nz _ E); reflexivity).
+        rewrite (IH (c + length p)%nat Hlen Hrest). cbn [bo_results]. rewrite Hseq. reflexivity.
+  Qed.
+
+  (* any partition of the log into batches gives the machine (published state, persisted state)
+     and the per-entry results of applying the entries one at a time *)
+  Theorem partition_invariant parts :
+    concat parts = log ->
+    PARTS (fresh empty) parts = PARTS (fresh empty) (map (fun e => [e]) log).
+  Proof.
+    intro Hcat.
+    assert (Hfresh : fresh empty = refM 0).
+    { unfold refM, store_of, fresh. cbn [Sref]. rewrite rev_empty. reflexivity. }
+    rewrite Hfresh.
+    rewrite (parts_from parts 0 ltac:(lia) Hcat).
+    rewrite (parts_from (map (fun e => [e]) log) 0 ltac:(lia)); [reflexivity|].
+    cbn [skipn]. clear. induction log as [|x l IH]; [reflexivity|]. cbn [map concat app]. rewrite IH. reflexivity.
+  Qed.
+
+  (* after a restart from the persisted state S_h (revision <> 0), re-applying entries that
+     were already applied returns already_applied no-ops and changes neither the published
+     nor the persisted state *)
+  Theorem replay_noop h c cnt :
+    (h <= length log)%nat -> (c + cnt <= h)%nat -> revision (Sref h) <> 0 ->
+    AB (restart empty (refM h)) 0 (map ent (seq c cnt))
+    = (refM h, BO (repeat (already_applied revision applied (Sref h)) cnt) false (Some (Sref h)) (Some (Sref h))).
+  Proof.
+    intros Hh Hc E.
+    assert (Hr : restart empty (refM h) = refM h).
+    { unfold restart, refM. cbn [m_store m_state]. rewrite (store_of_nz _ E). reflexivity. }
+    rewrite Hr.
+    rewrite (AB_outcome (refM h) 0 h c cnt eq_refl ltac:(lia) Hh ltac:(lia)).
+    replace (Nat.max h (c + cnt)%nat) with h by lia.
+    rewrite (proj2 (N.eqb_neq _ _) E). cbn [N.eqb].
+    assert (Hres : map (my_exp h) (seq c cnt) = repeat (already_applied revision applied (Sref h)) cnt).
+    { clear - Hc E. revert c Hc. induction cnt as [|cnt IH]; intros c Hc; [reflexivity|].
+      cbn [seq map repeat]. rewrite IH by lia. f_equal. unfold my_exp, already_applied.
+      rewrite (proj2 (Nat.ltb_lt _ _)) by lia. rewrite (proj2 (N.eqb_neq _ _) E). reflexivity. }
+    rewrite Hres. unfold refM. rewrite (store_of_nz _ E). reflexivity.
+  Qed.
+
+  (* before init a restart finds nothing persisted and re-applying the same entries gives the
+     same results and again persists nothing *)
+  Theorem replay_preinit h c cnt :
+    (h <= length log)%nat -> (c + cnt <= h)%nat -> revision (Sref h) = 0 ->
+    AB (restart empty (refM h)) 0 (map ent (seq c cnt))
+    = (refM h, BO (map Rref (seq c cnt)) false (Some empty) None).
+  Proof.
+    intros Hh Hc E.
+    assert (Hr : restart empty (refM h) = refM h).
+    { unfold restart, refM. cbn [m_store m_state]. rewrite (store_of_zero _ E).
+      rewrite (Sref_zero h Hh E). reflexivity. }
+    rewrite Hr.
+    rewrite (AB_outcome (refM h) 0 h c cnt eq_refl ltac:(lia) Hh ltac:(lia)).
+    replace (Nat.max h (c + cnt)%nat) with h by lia.
+    rewrite (proj2 (N.eqb_eq _ _) E). rewrite (Sref_zero h Hh E).
+    f_equal. f_equal. apply map_ext_in. intros k Hk. apply in_seq in Hk. unfold my_exp.
+    rewrite (proj2 (N.eqb_eq _ _) E). rewrite andb_false_r. reflexivity.
+  Qed.
 End FrameProof.
